@@ -35,8 +35,36 @@ structure EvictSpec (P : Policy σ) (Ok : σ → Prop) (target : Nat) (s : Shard
     res.1.entries + vs.length = s.entries ∧
     (∀ pre v post, vs = pre ++ v :: post → s.usage - wsum pre > target) ∧
     (∀ x, x ∈ res.1.index ↔ (x ∈ s.index ∧ x ∉ vs)) ∧
-    (∀ v ∈ vs, v ∈ s.index)
+    (∀ v ∈ vs, v ∈ s.index) ∧ vs.Nodup
   done : res.1.usage ≤ target ∨ P.pop res.1.ev = none
+
+theorem nodup_of_keysNodup {l : List Rec} (h : keysNodup l) : l.Nodup := by
+  unfold keysNodup at h
+  exact List.Pairwise.of_map (fun r : Rec => r.key) (fun a b hab e => hab (by rw [e])) h
+
+/-- The evicted records are exactly what left the index. -/
+theorem EvictSpec.perm {P : Policy σ} {Ok : σ → Prop} {target : Nat} {s : Shard σ}
+    {res : Shard σ × List Rec × Bool} (h : ShardInv P Ok s) (es : EvictSpec P Ok target s [] res) :
+    s.index.Perm (res.1.index ++ res.2.1) := by
+  obtain ⟨vs, hvs, _, _, _, hidx, hsub, hnd⟩ := es.victims
+  simp only [List.nil_append] at hvs
+  rw [hvs]
+  apply (List.perm_ext_iff_of_nodup (nodup_of_keysNodup h.keys) ?_).mpr
+  · intro x
+    rw [List.mem_append, hidx x]
+    constructor
+    · intro hx
+      by_cases hv : x ∈ vs
+      · exact Or.inr hv
+      · exact Or.inl ⟨hx, hv⟩
+    · rintro (⟨hx, _⟩ | hv)
+      · exact hx
+      · exact hsub x hv
+  · rw [List.nodup_append]
+    refine ⟨nodup_of_keysNodup es.inv.keys, hnd, ?_⟩
+    intro a ha b hb hab
+    subst hab
+    exact ((hidx a).mp ha).2 hb
 
 theorem hasId_members_iff {P : Policy σ} {Ok : σ → Prop} (L : Lawful P Ok) {s : Shard σ}
     (h : ShardInv P Ok s) {r : Rec} (hr : r ∈ s.index) : hasId r.id (P.members s.ev) = true := by
@@ -69,7 +97,7 @@ theorem evictLoop_spec {P : Policy σ} {Ok : σ → Prop} (L : Lawful P Ok) (tar
       split
       · rename_i hpop
         exact ⟨rfl, h, rfl, ⟨[], by simp, by simp [wsum], by simp, by
-          intro pre v post hh; simp at hh, by simp, by simp⟩, Or.inr hpop⟩
+          intro pre v post hh; simp at hh, by simp, by simp, by simp⟩, Or.inr hpop⟩
       · rename_i r ev' hpop
         have hpm := L.pop_mem s.ev r ev' h.ok hpop
         have hri : r ∈ s.index := (h.mem_iff r).mp hpm.1
@@ -102,8 +130,8 @@ theorem evictLoop_spec {P : Policy σ} {Ok : σ → Prop} (L : Lawful P Ok) (tar
         have rec1 := ih s1 (acc ++ [r]) h1 hf1
         show EvictSpec P Ok target s acc (evictLoop P target fuel s1 (acc ++ [r]))
         generalize evictLoop P target fuel s1 (acc ++ [r]) = res at rec1 ⊢
-        obtain ⟨np, inv, capeq, ⟨vs, hv1, hv2, hv3, hv4, hv5, hv6⟩, dn⟩ := rec1
-        refine ⟨np, inv, capeq, ⟨r :: vs, ?_, ?_, ?_, ?_, ?_, ?_⟩, dn⟩
+        obtain ⟨np, inv, capeq, ⟨vs, hv1, hv2, hv3, hv4, hv5, hv6, hv7⟩, dn⟩ := rec1
+        refine ⟨np, inv, capeq, ⟨r :: vs, ?_, ?_, ?_, ?_, ?_, ?_, ?_⟩, dn⟩
         · rw [hv1]; simp
         · simp only [wsum]
           have : s1.usage = s.usage - r.weight := rfl
@@ -135,9 +163,11 @@ theorem evictLoop_spec {P : Policy σ} {Ok : σ → Prop} (L : Lawful P Ok) (tar
           rcases List.mem_cons.mp hv with rfl | hv'
           · exact hri
           · exact ((hmem1 v).mp (hv6 v hv')).1
+        · rw [List.nodup_cons]
+          exact ⟨fun hin => ((hmem1 r).mp (hv6 r hin)).2 rfl, hv7⟩
     · rename_i hle
       exact ⟨rfl, h, rfl, ⟨[], by simp, by simp [wsum], by simp, by
-        intro pre v post hh; simp at hh, by simp, by simp⟩, Or.inl (by show s.usage ≤ target; omega)⟩
+        intro pre v post hh; simp at hh, by simp, by simp, by simp⟩, Or.inl (by show s.usage ≤ target; omega)⟩
 
 /-- The eviction loop never changes the shard's capacity. -/
 theorem evict_cap {P : Policy σ} (t : Shard σ) (tg : Nat) : (Shard.evict P t tg).1.cap = t.cap := by
